@@ -301,8 +301,6 @@ func (g *Graph) removeLine(fid, tid, id int64) {
 	if len(g.to[tid][fid]) == 0 {
 		delete(g.to[tid], fid)
 	}
-
-	g.ids.Release(id)
 }
 
 // removeNode removes the node with the given ID from the graph, as well as
@@ -339,7 +337,7 @@ func (g *Graph) RemoveStatement(s *Statement) {
 	delete(statements, s)
 	if len(statements) == 0 {
 		delete(g.pred, s.Predicate.UID)
-		if len(g.from[s.Predicate.UID]) == 0 {
+		if _, isNode := g.nodes[s.Predicate.UID]; !isNode {
 			g.ids.Release(s.Predicate.UID)
 			delete(g.termIDs, s.Predicate.Value)
 		}
